@@ -77,6 +77,9 @@ Fixpoint steps_match (v : variant) (c : cfg) (init : obs) (s : st) (l : list ste
          of the multistaking keeper without distributor keeper); a tree where it works must agree with
          the keeper-level slash *)
       if is_slash_proposal o && (res =? 2) && negb (v_slash_byref v) then match ob with None => steps_match v c init s r | Some _ => false end else
+      match o, ob with
+      | OExternal _, Some q => (res =? 0) && steps_match v c init (st_of_obs (resolve init q)) r   (* outside the model *)
+      | _, _ =>
       match step v c o s, ob with
       (* the next step starts from the observed state, which was just checked to equal the model's state on
          the tracked accounts and denominations (this also keeps the closures of the function-valued maps small) *)
@@ -84,7 +87,7 @@ Fixpoint steps_match (v : variant) (c : cfg) (init : obs) (s : st) (l : list ste
       | Err _, None => (res =? 1) && steps_match v c init s r
       | Panic _, None => (res =? 2) && steps_match v c init s r
       | _, _ => false
-      end
+      end end
   end.
 
 Definition case_matches (v : variant) (cfgs : list cfg) (k : c10_case) : bool :=
@@ -148,7 +151,7 @@ Definition claim_clauses (p q : obs) (who id : Z) : list string :=
 (* the owner's claim of a matured record that the module can pay must not be refused *)
 Definition claim_denied (p : obs) (who id : Z) : bool :=
   match find_rec id (o_undels p) with
-  | Some (ow, ex, am) => (ow =? who) && (ex <=? o_time p) && forallb (fun e => snd e <=? g (o_mod p) (fst e)) am
+  | Some (ow, ex, am) => (ow =? who) && (ex <=? o_time p) && coins_valid am && forallb (fun e => snd e <=? g (o_mod p) (fst e)) am
   | None => false end.
 
 Definition matured_clauses (p q : obs) (who : Z) : list string :=
@@ -200,6 +203,29 @@ Definition signing_record_clause (p q : obs) (aux : list Z) (infl : Z) : list st
   if (nth 2 aux 0 =? 1) && is_val (o_prev p) && (signed <? power_of p) && (0 <? excess_signed p q signed infl)
   then [("credited_beyond_signing_record+" ++ z_to_string (excess_signed p q signed infl))%string] else [].
 
+(* ---- address rotation (x/recovery) and other outside writers: the pool books, the share supply and everybody's
+   holdings, rewards, registrations are carried over, nothing is created or lost *)
+Definition same_pool (p q : obs) : bool :=
+  (o_slashed p =? o_slashed q) && forallb (fun d => (g (o_stake p) d =? g (o_stake q) d) && (g (o_shares p) d =? g (o_shares q) d)
+     && (g (o_ssup p) d =? g (o_ssup q) d) && (g (o_mod p) d =? g (o_mod q) d)) ds
+  && list_eqb rec_eqb (o_undels p) (o_undels q).
+Definition rotation_clauses (p q : obs) (who to : Z) : list string :=
+  (if same_pool p q then [] else ["rotation_pool"%string]) ++
+  (if forallb (fun d => (ag (o_sbal q) to d =? ag (o_sbal p) to d + ag (o_sbal p) who d) && (ag (o_sbal q) who d =? 0)) ds
+      && forallb (fun a => (a =? who) || (a =? to) || forallb (fun d => ag (o_sbal q) a d =? ag (o_sbal p) a d) ds) ac
+   then [] else ["rotation_shares"%string]) ++
+  (if forallb (fun d => (ag (o_rew q) to d =? ag (o_rew p) to d + ag (o_rew p) who d) && (ag (o_rew q) who d =? 0)) ds
+      && forallb (fun a => (a =? who) || (a =? to) || forallb (fun d => ag (o_rew q) a d =? ag (o_rew p) a d) ds) ac
+   then [] else ["rotation_rewards"%string]) ++
+  (if Bool.eqb (zmem who (o_dels p) || zmem to (o_dels p)) (zmem to (o_dels q)) && negb (zmem who (o_dels q))
+      && forallb (fun a => (a =? who) || (a =? to) || Bool.eqb (zmem a (o_dels p)) (zmem a (o_dels q))) ac
+   then [] else ["rotation_delegator"%string]).
+Definition unchanged_clauses (p q : obs) : list string :=
+  (if same_pool p q then [] else ["rotation_pool"%string]) ++
+  (if forallb (fun a => forallb (fun d => (ag (o_sbal q) a d =? ag (o_sbal p) a d) && (ag (o_rew q) a d =? ag (o_rew p) a d)) ds) ac
+      && list_eqb Z.eqb (o_dels p) (o_dels q)
+   then [] else ["rotation_state"%string]).
+
 (* the multistaking module account pays out only on claims (and loses the slashed part on a slash) *)
 Definition ok_module (p q : obs) : bool := forallb (fun d => g (o_mod p) d <=? g (o_mod q) d) ds.
 
@@ -216,6 +242,8 @@ Definition step_clauses (p q : obs) (o : op) (res : Z) (aux : list Z) : list str
     | OClaim who id => claim_clauses p q who id
     | OClaimMatured who => matured_clauses p q who
     | OSlash _ | OSlashProposal _ => []
+    | ORotate who to _ => rotation_clauses p q who to
+    | ORotateVal _ | OExternal _ => unchanged_clauses p q
     | OAllocate possible infl =>
         (if possible then alloc_clauses p q infl else []) ++ (if ok_module p q then [] else ["module_outflow"%string])
     | OBegin _ _ _ possible infl =>
